@@ -325,6 +325,10 @@ fn codes_of<T>(res: Result<T, MultiFormatError>) -> Value {
 }
 
 fn exec(case: &Value) -> Value {
+    if std::env::var("C10_LOUD").is_ok() {
+        // debugging aid: print where a panic of the real code comes from
+        std::panic::set_hook(Box::new(|info| eprintln!("PANIC at {:?}: {}", info.location(), info)));
+    }
     let kind = case["k"].as_str().unwrap_or("doc");
     if kind == "raw" {
         // debugging aid: problem/matrix JSON given literally
@@ -1359,7 +1363,9 @@ fn malform(doc: &mut Value, rng: &mut Rng) -> Option<String> {
     match v.clone() {
         Value::Number(n) => {
             let x = n.as_i64()?;
-            if time_pos {
+            // every absolute timestamp of a document is far above 10^9; anything else is a small number
+            // (keeps rendered dates inside the years RFC 3339 can express)
+            if time_pos || x > 1_000_000_000 {
                 *v = if rng.chance(1, 2) { json!("bad") } else { json!(*rng.pick(&[0, x + DAY, x - DAY, -x])) };
                 label = "time";
             } else if NAT_KEYS.contains(&direct.as_str()) || NAT_KEYS.contains(&key.as_str()) && direct != "dur" {
